@@ -11,6 +11,7 @@ import (
 
 	"go.opentelemetry.io/otel/attribute"
 	sdkmetric "go.opentelemetry.io/otel/sdk/metric"
+	"go.opentelemetry.io/otel/verif/internal/vk"
 )
 
 // ---------------------------------------------------------------------
@@ -172,4 +173,57 @@ func (k *checker) histogramExemplars(at string, bks []*dto.Bucket, cand []exMeas
 			return
 		}
 	}
+}
+
+// knownEmptyFirstHelp recognises the open finding "description conflict whose
+// FIRST seen description is empty": validateMetrics returns the existing help
+// "" and Collect only replaces the description when that is non-empty, so the
+// later instrument keeps its own help and the registry rejects the scrape
+// ('has help "x" but should have ""'). Exactly: a Gather error ALL of whose
+// parts are that complaint, in a case where an instrument without description
+// may share a family with one that has a description.
+func knownEmptyFirstHelp(c Case, v vk.Violation) bool {
+	if v.Kind != "gather_error" {
+		return false
+	}
+	// "<tag>: Gather returned an error: <err>" with <err> either one error or
+	// "N error(s) occurred:\n* e1\n* e2"
+	msg := v.Msg
+	if i := strings.Index(msg, "returned an error: "); i >= 0 {
+		msg = msg[i+len("returned an error: "):]
+	}
+	if i := strings.Index(msg, "error(s) occurred:"); i >= 0 {
+		msg = msg[i+len("error(s) occurred:"):]
+	}
+	p := newPlan(&c)
+	n := 0
+	for _, part := range strings.Split(msg, "\n* ") {
+		part = strings.TrimSpace(part)
+		if part == "" {
+			continue
+		}
+		// a help complaint about a family one of whose instruments has no
+		// description (which, once it is the exporter's first definition, is
+		// never applied to the others)
+		if !strings.HasPrefix(part, "collected metric ") || !strings.Contains(part, " has help ") || !strings.Contains(part, " but should have ") {
+			return false
+		}
+		fam := strings.TrimPrefix(part, "collected metric ")
+		if j := strings.IndexByte(fam, ' '); j >= 0 {
+			fam = fam[:j]
+		}
+		fam = strings.Trim(fam, `"`)
+		empty, other := false, false
+		for i := range c.Insts {
+			if p.refs[i].matches(fam) {
+				empty = empty || c.Insts[i].Desc == ""
+				other = other || c.Insts[i].Desc != ""
+			}
+		}
+		if !empty || !other {
+			return false
+		}
+		n++
+	}
+	return n > 0
 }
